@@ -1,5 +1,5 @@
 import Indi.Properties.C04
-import Indi.Properties.Decisions
+import Indi.Properties.Dec.Router
 #print axioms Indi.Rtr.process_deliveries
 #print axioms Indi.Rtr.C04_devices
 #print axioms Indi.Rtr.C04_device_order
@@ -11,3 +11,5 @@ import Indi.Properties.Decisions
 #print axioms Indi.Rtr.C04_device_bound_kinds
 #print axioms Indi.Rtr.devices_eq
 #print axioms Indi.Decisions.driverAccepts_agrees
+#print axioms Indi.Decisions.routerToDevice_agrees
+#print axioms Indi.Decisions.router_process_from_source
